@@ -294,6 +294,28 @@ impl<'b> LuaDocParser<'_, 'b> {
         self.lua_parser.errors.push(error);
     }
 
+    /// Shares the nesting counter of the Lua parser (a doc comment can sit at any depth).
+    pub fn enter_nesting(&mut self) -> bool {
+        self.lua_parser.enter_nesting()
+    }
+
+    pub fn leave_nesting(&mut self) {
+        self.lua_parser.leave_nesting()
+    }
+
+    /// Builds the nesting overflow error and consumes the rest of the comment, so that
+    /// no caller recurses again; the tokens stay in the tree.
+    pub(crate) fn fail_nesting_too_deep(&mut self) -> LuaParseError {
+        let error = LuaParseError::doc_error_from(
+            &t!("too many nesting levels"),
+            self.current_token_range(),
+        );
+        while self.current_token() != LuaTokenKind::TkEof {
+            self.bump();
+        }
+        error
+    }
+
     pub fn set_parser_state(&mut self, state: LuaDocParserState) {
         self.state = state;
     }
